@@ -40,7 +40,12 @@ func (r eofAtEnd) ReadAt(p []byte, off int64) (int, error) {
 // replays are exact
 func c01Reader(img []byte) io.ReaderAt {
 	var rd io.ReaderAt = bytes.NewReader(img)
-	switch k := crc32.ChecksumIEEE(img); k % 5 {
+	switch k := crc32.ChecksumIEEE(img); k % 6 {
+	case 5:
+		// a section reader declared LARGER than the data behind it (the io.NewSectionReader(r, 0, 1<<63-1) idiom to
+		// get a ReadSeeker out of a ReaderAt of unknown size, or a generous upper bound): its Size() is not the
+		// length of the image, reads behind the data end with io.EOF as on any reader
+		rd = io.NewSectionReader(bytes.NewReader(img), 0, int64(len(img))+[]int64{1, 7, 8, 4096, 1 << 40, 1<<63 - 1 - int64(len(img))}[(k>>8)%6])
 	case 1:
 		rd = eofAtEnd{img}
 	case 2:
@@ -278,6 +283,110 @@ func c01Later(c *Ctx, cs Case, img, pre []byte, fail func(what, goObs, spec, mat
 	}
 }
 
+// c01Batch: SEVERAL images are parsed one after the other and asked for their digests only afterwards, the way a
+// tool does that first collects every file it is going to sign, verify or measure. The statement is about "the
+// digest the library reports" for an image: it is a function of that image alone, whatever else the process has
+// parsed between Parse and Hash. The case lists the images (specs of the generator; followers of the first one
+// share its layout with other contents, or differ in the length of the data after the last section, or are
+// unrelated, or are the same file again) and the mode: 0 - parse all, then ask every object (in the order and
+// under the algorithms chosen by the case, every object at least twice); 1 - after each Parse ask every object
+// parsed so far. Every answer must be that algorithm over the specification's hash input of ITS image.
+func c01Batch(c *Ctx, cs Case) {
+	var specs []peSpec
+	if xs, ok := cs["images"].([]interface{}); ok {
+		for _, x := range xs {
+			switch m := x.(type) {
+			case Case:
+				specs = append(specs, specOfCase(m))
+			case map[string]interface{}:
+				specs = append(specs, specOfCase(Case(m)))
+			}
+		}
+	}
+	if len(specs) < 2 {
+		return
+	}
+	fail := func(what, goObs, spec string) {
+		c.Fail(Failure{Kind: "property", What: what, Case: cs, Go: clip(goObs), Spec: clip(spec)})
+	}
+	imgs := make([][]byte, len(specs))
+	pres := make([][]byte, len(specs))
+	desc := make([]string, len(specs))
+	for i, s := range specs {
+		imgs[i] = buildPE(s).img
+		spec := c.Drv.Ask("pe.spec", hx(imgs[i]))
+		if fieldAfter(spec, "wf=") != "true" {
+			c.Fail(Failure{Kind: "tie", What: "generator produced an image the Spec does not consider well-formed", Case: cs, Model: spec[:min(len(spec), 40)]})
+			return
+		}
+		pres[i] = unhx(fieldAfter(spec, "pre="))
+		want := sha256.Sum256(pres[i])
+		if ind := msDigest(imgs[i], crypto.SHA256); !bytes.Equal(ind, want[:]) {
+			c.Fail(Failure{Kind: "tie", What: "the Lean Spec's hash input and the harness's independent Go rendering of the specification's steps 3-14 give different digests for a well-formed image (one of the two oracles is wrong)", Case: cs, Model: hx(want[:]), Go: hx(ind)})
+			return
+		}
+		desc[i] = fmt.Sprintf("%d bytes, %d after the last section, table %d", len(imgs[i]), s.Trailing, len(s.CertBodies))
+	}
+	mode := int(cs.I("mode"))
+	c.Count(cs.Key(), true, fmt.Sprintf("batch/images=%d/mode=%d", len(specs), mode))
+	c.Sample(cs)
+	k := uint32(cs.I("ask"))
+	parsed := make([]*authenticode.PECOFFBinary, len(specs))
+	bad := map[int]bool{}
+	ask := func(i int, h crypto.Hash, when string) {
+		if bad[i] {
+			return // reported once
+		}
+		var d []byte
+		pan, _ := safely(func() { d = parsed[i].Hash(h) })
+		hh := h.New()
+		hh.Write(pres[i])
+		if want := hh.Sum(nil); pan || !bytes.Equal(d, want) {
+			bad[i] = true
+			obs := hx(d)
+			if pan {
+				obs = "panic"
+			}
+			for j := range specs { // is it the digest of another image of the batch?
+				hj := h.New()
+				hj.Write(pres[j])
+				if j != i && bytes.Equal(d, hj.Sum(nil)) {
+					obs += fmt.Sprintf(" (the %v digest of image %d)", h, j)
+				}
+			}
+			fail(fmt.Sprintf("%d images parsed one after the other (mode %d): the %v digest of image %d (%s), asked %s, is not that of the specification's hash input of that image", len(specs), mode, h, i, desc[i], when), obs, hx(want))
+		}
+	}
+	for i := range specs {
+		var err error
+		if pan, _ := safely(func() { parsed[i], err = authenticode.Parse(c01Reader(imgs[i])) }); pan || err != nil {
+			fail(fmt.Sprintf("Parse failed on well-formed image %d of a batch of %d", i, len(specs)), fmt.Sprint(pan, err), "")
+			return
+		}
+		if mode == 1 {
+			for j := 0; j <= i; j++ {
+				ask(j, c01Algs(k + uint32(i))[j%4], fmt.Sprintf("after image %d was parsed", i))
+			}
+		}
+	}
+	// all are parsed: every object is asked, first in an order chosen by the case, then backwards
+	order := make([]int, len(specs))
+	for i := range order {
+		order[i] = i
+	}
+	for i, x := len(order)-1, k>>4; i > 0; i-- {
+		j := int(x % uint32(i+1))
+		x /= uint32(i + 1)
+		order[i], order[j] = order[j], order[i]
+	}
+	for n, i := range order {
+		ask(i, crypto.SHA256, fmt.Sprintf("after all %d images were parsed (query %d)", len(specs), n))
+	}
+	for n := len(order) - 1; n >= 0; n-- {
+		ask(order[n], c01Algs(k >> 2)[n%4], fmt.Sprintf("after all %d images were parsed and asked for their SHA-256 digests", len(specs)))
+	}
+}
+
 // msDigest is a second, independent rendering of "Calculating the PE Image Hash" (steps 3-14 of the Microsoft
 // Authenticode document) in Go, on the image zero-padded to 8 bytes. It reads the header fields with
 // encoding/binary only - neither the library, debug/pe nor the Lean Spec are involved - so it cross-checks the Lean
@@ -485,6 +594,8 @@ func c01PaddingTie(c *Ctx, cs Case, srcLen, blockSize int) {
 
 func c01Eval(c *Ctx, cs Case) {
 	switch cs.S("op") {
+	case "batch":
+		c01Batch(c, cs)
 	case "padding":
 		c01PaddingTie(c, cs, int(cs.I("n")), int(cs.I("blk")))
 	case "image":
@@ -583,6 +694,30 @@ func c01Gen(c *Ctx) {
 			}
 		}
 	}
+	// several images parsed before any of them is hashed
+	for i := 0; i < c.N(60, 3000) && c.NFailures() < 8; i++ {
+		r := c.Rng
+		s := genPeSpec(c, i%40 == 39)
+		if i%2 == 0 && s.Trailing == 0 {
+			s.Trailing = []int{1, 7, 8, 9, 1 + r.Intn(300), 300 + r.Intn(4000)}[r.Intn(6)]
+		}
+		images := []interface{}{specCase(s)}
+		for n := 1 + r.Intn(3); n > 0; n-- {
+			t := s
+			switch r.Intn(5) {
+			case 0: // the same layout, other contents
+				t.Seed = r.Int63()
+			case 1, 2: // ... and another amount of data after the last section
+				t.Seed = r.Int63()
+				t.Trailing = []int{0, 1, 7, 8, 9, max(s.Trailing-1, 0), s.Trailing + 1, r.Intn(300), 300 + r.Intn(4000)}[r.Intn(9)]
+			case 3: // an unrelated image
+				t = genPeSpec(c, false)
+			case 4: // the same file once more
+			}
+			images = append(images, specCase(t))
+		}
+		c01Eval(c, Case{"op": "batch", "images": images, "mode": int64(i % 2), "ask": int64(r.Intn(1 << 20))})
+	}
 	for i := 0; i < c.N(500, 30000) && c.NFailures() < 8; i++ {
 		s := genPeSpec(c, i%25 == 0)
 		c01Eval(c, specCase(s))
@@ -606,7 +741,7 @@ func alignSpec(s peSpec, j, a int) peSpec {
 
 func init() {
 	register("C01", &PropDef{
-		Rule:   "generated well-formed images over {PE32, PE32+} x e_lfanew {0x40, 0x48, 0x80, random} x 5..16 data directories x 0..8 (thorough: ..96) sections x size classes {0,1,7,8,9,512,random, >32 KiB and >64 KiB every 25th image so that io.Copy's 32 KiB reads cross part boundaries} x part boundaries aligned to 32 KiB / 512 B in the hashed stream (section ends at offset = 12 mod the read size) x header order (random permutation / file order) x gaps x SizeOfHeaders slack x trailing length {0,1,7,8,9,random} x certificate table {none, 1, 2 entries} x, for every third image, a left-over directory-entry address with size 0 when there is no table {1, inside the headers, inside the sections, end of the sections, inside the trailing data, file end, padded file end, beyond the file, 2^32-1} x 3 machine types; the repository's binaries; per image ~25 stratified byte changes (header fields, checksum, directory entry, section table, slack, section boundaries, gaps, tail, certificate table); a changed image that is still well-formed and that Parse rejects counts as outside the domain only when debug/pe.NewFile itself rejects it, and a changed directory-entry byte is judged like any other excluded byte. Every image is also parsed once and asked for its digest six times on that one object, running through SHA-1/256/384/512 in an order chosen by the image and then repeating the first two; every answer is compared with that algorithm over the specification's hash input, every other returned slice is overwritten by the caller before the next call, and the remaining ones are held and must not change. Every image is also parsed once through a caller-supplied io.ReaderAt that fixes the interleaving of goroutines (sched.go) and asked for its digest by two or three goroutines AT THE SAME TIME (algorithms, possibly the same one twice, chosen by the image): the calls take turns at read granularity - the first call is parked inside its first or second read, later turns last 0..3 reads, a function of the image - and every one of the overlapping calls, and a call after them, must return its algorithm over the specification's hash input. And every image is parsed through a reader whose storage shrinks AFTER Parse (only the first L bytes remain readable, the read at the cut ending with io.EOF or with another error; L in {0, 1, n/4, n/2, 3n/4, n-9, n-1, two positions chosen by the image, the end of the hashed data and the one before, both ends of the certificate-table directory entry}): whatever Hash then reports must be nil or the specification digest of the image that was parsed (never the digest of the readable part), and the digest is reported again once the storage is whole. Half of the images (by a checksum of their bytes) are read through a conforming io.ReaderAt that reports io.EOF together with the read that reaches the end of the file. Non-trivial: image longer than 256 bytes / every flip; distinct = distinct specs and (image, position, mask).",
+		Rule:   "generated well-formed images over {PE32, PE32+} x e_lfanew {0x40, 0x48, 0x80, random} x 5..16 data directories x 0..8 (thorough: ..96) sections x size classes {0,1,7,8,9,512,random, >32 KiB and >64 KiB every 25th image so that io.Copy's 32 KiB reads cross part boundaries} x part boundaries aligned to 32 KiB / 512 B in the hashed stream (section ends at offset = 12 mod the read size) x header order (random permutation / file order) x gaps x SizeOfHeaders slack x trailing length {0,1,7,8,9,random} x certificate table {none, 1, 2 entries} x, for every third image, a left-over directory-entry address with size 0 when there is no table {1, inside the headers, inside the sections, end of the sections, inside the trailing data, file end, padded file end, beyond the file, 2^32-1} x 3 machine types; the repository's binaries; per image ~25 stratified byte changes (header fields, checksum, directory entry, section table, slack, section boundaries, gaps, tail, certificate table); a changed image that is still well-formed and that Parse rejects counts as outside the domain only when debug/pe.NewFile itself rejects it, and a changed directory-entry byte is judged like any other excluded byte. Every image is also parsed once and asked for its digest six times on that one object, running through SHA-1/256/384/512 in an order chosen by the image and then repeating the first two; every answer is compared with that algorithm over the specification's hash input, every other returned slice is overwritten by the caller before the next call, and the remaining ones are held and must not change. Every image is also parsed once through a caller-supplied io.ReaderAt that fixes the interleaving of goroutines (sched.go) and asked for its digest by two or three goroutines AT THE SAME TIME (algorithms, possibly the same one twice, chosen by the image): the calls take turns at read granularity - the first call is parked inside its first or second read, later turns last 0..3 reads, a function of the image - and every one of the overlapping calls, and a call after them, must return its algorithm over the specification's hash input. And every image is parsed through a reader whose storage shrinks AFTER Parse (only the first L bytes remain readable, the read at the cut ending with io.EOF or with another error; L in {0, 1, n/4, n/2, 3n/4, n-9, n-1, two positions chosen by the image, the end of the hashed data and the one before, both ends of the certificate-table directory entry}): whatever Hash then reports must be nil or the specification digest of the image that was parsed (never the digest of the readable part), and the digest is reported again once the storage is whole. Half of the images (by a checksum of their bytes) are read through a conforming io.ReaderAt that reports io.EOF together with the read that reaches the end of the file. One image in six (by that checksum) is parsed through an io.SectionReader declared LARGER than the image (by 1, 7, 8, 4096, 2^40 bytes, or up to 2^63-1): its Size() is not the file length, reads behind the data end with io.EOF. SEVERAL IMAGES PARSED BEFORE ANY IS HASHED: 60 batches (thorough 3000) of 2..4 images are parsed one after the other and asked for their digests only afterwards (mode 0: all parsed, then every object asked for SHA-256 in an order chosen by the batch and then, backwards, for one of SHA-1/256/384/512; mode 1: after each Parse every object parsed so far is asked); the followers of the first image have the same layout with other contents, the same layout with another amount of data after the last section ({0,1,7,8,9, one less, one more, <300, 300..4300} bytes), are unrelated images, or are the same file again, and every second batch starts from an image with data after its last section; every answer must be that algorithm over the specification's hash input of ITS image, whatever was parsed between its Parse and its Hash. Non-trivial: image longer than 256 bytes / every flip / every batch; distinct = distinct specs, (image, position, mask) and batches.",
 		Assume: []string{"debug/pe.NewFile accepts the generated headers (machine type from its whitelist, no symbol table, no relocations, section names not starting with '/')", "SHA-256 does not collide on the pre-images compared"},
 		Eval:   c01Eval, Gen: c01Gen,
 	})
